@@ -139,7 +139,8 @@ def to_yaml(P):
 def gen(rng, n_tasks=None, p_async=0.35, p_guard=0.25, p_err_edge=0.3,
         p_join=0.8, partial_joins=True, merges=True, commands=False,
         p_publish=0.6, jinja=True, bad_expr=False, defaults=False,
-        name='wf', min_tasks=3, max_tasks=8, reads=True, prefix='t'):
+        name='wf', min_tasks=3, max_tasks=8, reads=True, prefix='t',
+        conflict_free=True):
     """Random DAG workflow.  Edges go from lower to higher index."""
     n = n_tasks or rng.randint(min_tasks, max_tasks)
     names = ['%s%d' % (prefix, i) for i in range(n)]
@@ -154,10 +155,7 @@ def gen(rng, n_tasks=None, p_async=0.35, p_guard=0.25, p_err_edge=0.3,
         T = {'name': nm, 'async': rng.random() < p_async, 'edges': [],
              'publish': {}, 'join': None, 'reads': [],
              'jinja': jinja and rng.random() < 0.25}
-        if rng.random() < p_publish:
-            var = 'v%d' % rng.randint(0, max(1, n // 2))
-            T['publish'][var] = '%s#%s' % (nm, var)
-            pubvars.append(var)
+        T['_wants_publish'] = rng.random() < p_publish
         tasks.append(T)
     # forward edges: every non-start task gets at least one inbound edge
     n_starts = 1 if rng.random() < 0.7 else min(2, n - 1)
@@ -184,6 +182,27 @@ def gen(rng, n_tasks=None, p_async=0.35, p_guard=0.25, p_err_edge=0.3,
             tasks[s]['edges'].append({
                 'clause': clause, 'to': names[j], 'guard': guard,
                 'form': 'dict' if rng.random() < 0.2 else 'list'})
+    # publishes: a fresh variable, or (conflict_free) one already published
+    # by an ancestor, or (not conflict_free) any variable of a small pool
+    anc = {nm: set() for nm in names}
+    for T in tasks:
+        for e in T['edges']:
+            anc[e['to']] |= anc[T['name']] | {T['name']}
+    by_name = {T['name']: T for T in tasks}
+    for i, T in enumerate(tasks):
+        if not T.pop('_wants_publish'):
+            continue
+        if conflict_free:
+            avars = sorted(set(v for a in anc[T['name']]
+                               for v in by_name[a]['publish']))
+            if avars and rng.random() < 0.4:
+                var = rng.choice(avars)
+            else:
+                var = 'v%d' % i
+        else:
+            var = 'v%d' % rng.randint(0, max(1, n // 2))
+        T['publish'][var] = '%s#%s' % (T['name'], var)
+        pubvars.append(var)
     # joins
     inbound = {nm: [] for nm in names}
     for T in tasks:
@@ -329,3 +348,53 @@ def all_programs(P):
     for C in P.get('children') or []:
         out.extend(all_programs(C))
     return out
+
+
+def publish_conflicts(P):
+    """Variables published by two tasks neither of which precedes the other
+    (the 'conflicting values' the properties exclude)."""
+    out = set()
+    for Q in all_programs(P):
+        succ = {T['name']: set(e['to'] for e in T['edges']
+                               if e['to'] not in COMMANDS)
+                for T in Q['tasks']}
+        reach = {}
+
+        def closure(n):
+            if n in reach:
+                return reach[n]
+            reach[n] = set()
+            acc = set()
+            for m in succ.get(n, ()):
+                acc.add(m)
+                acc |= closure(m)
+            reach[n] = acc
+            return acc
+        for T in Q['tasks']:
+            closure(T['name'])
+        pubs = {}
+        for T in Q['tasks']:
+            vs = set(T.get('publish') or {}) | \
+                set(T.get('publish_on_error') or {})
+            for e in T['edges']:
+                for scope in (e.get('publish') or {}).values():
+                    vs |= set(scope or {})
+            for v in vs:
+                pubs.setdefault(v, []).append(T['name'])
+        for v, ts in pubs.items():
+            for i in range(len(ts)):
+                for j in range(i + 1, len(ts)):
+                    a, b = ts[i], ts[j]
+                    if b not in reach[a] and a not in reach[b]:
+                        out.add(v)
+    return sorted(out)
+
+
+def is_deterministic(P):
+    """Fragment F1: the data of a run is a function of definition, input and
+    action results only (no partial joins, no merge without join, no
+    conflicting publishes) - for the whole tree of programs."""
+    for Q in all_programs(P):
+        if set(Q['features']) & {'partial-join', 'merge'}:
+            return False
+    return not publish_conflicts(P)
